@@ -12,12 +12,15 @@ From MafVerif Require Import lib.Base lib.Str model.RecordOps model.Validation m
 Definition N_NONE : str := [78;111;110;101]%N. (* None *)
 
 (* MafWriter.__check_column_names (repaired code): the column names a
-   scheme-less writer can put on the column line - no name contains the column
-   or a line separator, and the first name does not start with '#' *)
+   scheme-less writer can put on the column line - there is at least one, no
+   name contains the column or a line separator, and the first name does not
+   start with '#' *)
 Definition name_sep_free (n : str) : bool := negb (existsb (fun c => N.eqb c TAB || N.eqb c CR || N.eqb c LF) n).
 Definition names_writable (names : list str) : bool :=
-  forallb name_sep_free names
-  && match names with n0 :: _ => negb (startswith n0 [HASH]) | [] => true end.
+  match names with
+  | [] => false                         (* a record without columns cannot give a file its column names *)
+  | n0 :: _ => forallb name_sep_free names && negb (startswith n0 [HASH])
+  end.
 
 Section Writer.
   Context {C W : Type}.
